@@ -60,6 +60,12 @@ def build_image(src, name, opts, size, seed):
     cmds += ["write %s d1/frag" % src_file]
     for k in range(1, 36, 2):
         cmds.append("punch d1/frag %d %d" % (k, k))
+    if "1024" in opts:
+        # more extents than four leaf blocks hold (84 each): a tree with an interior on-disk block
+        deep = os.path.join(WORK, name + ".deep")
+        with open(deep, "wb") as f:
+            f.write(bytes(r.getrandbits(8) for _ in range(4096)) * 180)
+        cmds += ["write %s d1/deep" % deep] + ["punch d1/deep %d %d" % (k, k) for k in range(1, 719, 2)]
     cmds += ["symlink d1/sl /" + "t" * 200, "ea_set d1/frag user.big %s" % ("v" * 300), "ea_set d1 user.small abc",
              "mknod d1/pipe p", "write %s d1/sub/second" % src_file]
     rc, out = e2v.sh([T("debugfs/debugfs"), "-w", "-f", "-", img], input="\n".join(cmds).encode() + b"\n", env=env, timeout=300)
@@ -221,6 +227,34 @@ def enumerate_objects(fs, seed):
     return objs
 
 
+# kinds whose damage must be reported both by the library path that reads them and by e2fsck -fn
+E2E_KINDS = {"inode", "extent_block", "dir_leaf", "htree_node", "xattr_block", "block_bitmap", "inode_bitmap", "superblock", "mmp",
+             "group_desc", "group_desc_crc16"}
+
+
+def e2e_verdict(src, rexe, work, o):
+    """None, or what failed to notice the altered byte"""
+    import re
+    m = re.match(r"ino(\d+)(?:@(\d+))?", o.ident)
+    a, b = (int(m.group(1)), int(m.group(2) or 0)) if m else (0, 0)
+    if o.kind in ("block_bitmap", "inode_bitmap"):
+        a = int(o.ident[2:])
+    why = []
+    if not o.kind.startswith("group_desc"):
+        rc, out = e2v.sh([rexe, work, o.kind, str(a), str(b)], timeout=60)
+        codes = out.split()[1:] if out.startswith("R") else ["?"]
+        need = {"inode": [0, 1], "extent_block": [0, 1, 2, 3]}.get(o.kind, [0])
+        if codes and codes[0] == "open":
+            codes = []          # the library refused the whole filesystem: noticed
+        for k in need:
+            if k < len(codes) and codes[k] == "0":
+                why.append("library path %d of %s reports no error (h_csread: %s)" % (k, o.kind, out.strip()))
+    rc, out = e2v.sh([os.path.join(src, "e2fsck/e2fsck"), "-fn", work], env=e2v.tool_env(src), timeout=300)
+    if rc == 0:
+        why.append("e2fsck -fn exits 0")
+    return "; ".join(why) or None
+
+
 def model_ok(val, stored, width):
     return (val & 0xFFFF) == stored if width == 16 else val == stored
 
@@ -278,6 +312,8 @@ def run(res, replay=None):
     # ---- B/C. objects of real images
     total_objs, bad_format, kinds = 0, [], {}
     flips, flip_bad, escalated = 0, [], 0
+    e2e, e2e_kinds = 0, {}
+    rexe = e2v.build_harness("h_csread", src)
     imgs = CONFIGS if tier == "thorough" else CONFIGS[:7]
     for name, opts, size in imgs:
         img = build_image(src, name, opts, size, seed0)
@@ -318,6 +354,24 @@ def run(res, replay=None):
                 chosen.append((o, pos, bit, bytes(mod)))
         mv = ask_par(mexe, [o.req(m) for o, p, b, m in chosen])
         lv = ask(hexe, ["OPEN " + img] + [o.vcmd(m) for o, p, b, m in chosen])[1:]
+        # ---- E. the same flips on disk, read through the library's ordinary entry points and by e2fsck -fn
+        work = img + ".e2e"
+        shutil.copy(img, work)
+        e2e_jobs = [(o, pos, mod) for (o, pos, bit, mod), m_val in zip(chosen, mv)
+                    if not model_ok(int(m_val), o.stored(mod), o.width) and o.kind in E2E_KINDS]
+        for o, pos, mod in e2e_jobs:
+            with open(work, "r+b") as f:
+                f.seek(o.file_off + pos)
+                f.write(bytes([mod[pos]]))
+            why = e2e_verdict(src, rexe, work, o)
+            with open(work, "r+b") as f:
+                f.seek(o.file_off + pos)
+                f.write(bytes([o.raw[pos]]))
+            e2e += 1
+            e2e_kinds[o.kind] = e2e_kinds.get(o.kind, 0) + 1
+            if why:
+                flip_bad.append({"image": name, "mke2fs": opts, "object": o.kind, "id": o.ident, "byte": pos, "value": mod[pos], "note": why})
+        os.unlink(work)
         for (o, pos, bit, mod), m_val, l_val in zip(chosen, mv, lv):
             flips += 1
             m_ok = model_ok(int(m_val), o.stored(mod), o.width)
@@ -348,7 +402,7 @@ def run(res, replay=None):
                                  "note": "library reports a checksum error where the format definition's checksum still matches"})
     res.cov["correspondence"] = {"crc_cases": ncrc, "crc_mismatches": len(crc_bad), "crc_distribution": dist,
                                  "objects_rechecksummed": total_objs, "object_kinds": kinds, "format_mismatches": len(bad_format),
-                                 "flips": flips, "flip_disagreements": len(flip_bad), "flips_escalated_to_e2fsck": escalated,
+                                 "flips": flips, "flips_read_back_from_disk": e2e, "read_back_by_kind": e2e_kinds, "flip_disagreements": len(flip_bad), "flips_escalated_to_e2fsck": escalated,
                                  "compared": "CRC primitives (extracted bit-serial definition vs ext2fs_crc32c_le/crc16/crc32_be at every alignment); stored checksum of every object vs Csum.v; verify verdict on flipped objects (Csum.v vs ext2fs_*_csum_verify)"}
     res.cov["oracle"] = {"evaluations": ncrc + total_objs + flips, "failures": len(crc_bad) + len(bad_format) + len(flip_bad)}
     res.cov["rule"] = ("CRC: seeded random (kind, seed, alignment 0..15, length 0..4100, content); objects: every checksummed object found by the independent reader in images built by mke2fs+debugfs+e2fsck -D "
